@@ -145,10 +145,10 @@ def check_record(line, meta):
             if not INT_RE.match(a) or int(a) < 0 or int(a) > n_alt:
                 problems.append("sample %s GT %s uses allele %r with %d ALT alleles" % (name, gt, a, n_alt))
                 continue
-            if seen_missing:
+            if seen_missing and "|" not in gt:
                 problems.append("sample %s GT %s: '.' must come last" % (name, gt))
             called.append(int(a))
-        if called != sorted(called):
+        if "|" not in gt and called != sorted(called):
             problems.append("sample %s GT %s is not sorted" % (name, gt))
         d["_ploidy"] = ploidy
         d["_alleles"] = called
